@@ -65,7 +65,7 @@ void harness(void)
 /* nothing is written; there are never more words than characters */
 unsigned long spiftool_num_words(const spif_charptr_t str)
 __CPROVER_requires(VCSTR_FRESH(str, vg_n1))
-__CPROVER_assigns()
+__CPROVER_assigns(vg_sp_c, vg_exit)
 __CPROVER_ensures(__CPROVER_return_value <= vg_n1)
 ;
 void harness(void)
